@@ -43,9 +43,8 @@ CLOSERS = {')': 0, ']': 1}
 NOT_IN_FRAGMENT = {':', '#', 'Q{', '{', '}'}     # QName / EQName / named function reference syntax
 CLOSER_TEXT = {0: ')', 1: ']'}
 # sample operand texts per atom kind (kind k, id n)
-# 4-6 (XPath 3.1 only): unary lookups `?name`, `?integer`, `?*` — primary expressions of the EBNF
-# (3.1 [76] UnaryLookup ::= "?" KeySpecifier); the Lean model sees them as operands, so the real parser's
-# handling of a unary lookup in every operand position is compared with the EBNF reference parser.
+# 6 (XPath 3.1 only): the `*` lookup key (used only after `?`); 4, 5 are no longer used: the unary lookup
+# `? KeySpecifier` (3.1 [76]) is now a prefix symbol of the Lean model and a primary of the Lean grammar.
 # 7-9: names that spell operator keywords, unprefixed / prefixed `x:` / wildcard `*:` (2.0+);
 # 10: static function calls with 0-2 arguments (nested); 11 (3.1): parenthesised arrow expressions with every
 # function-specifier form.  All are primaries of the EBNF: operands for the model and the reference parser.
@@ -84,7 +83,7 @@ def atom_kind_list(ver: str) -> list[int]:
     if b >= '20':
         kinds.append(9)
     if b == '31':
-        kinds += [4, 5, 6, 11]
+        kinds += [6, 11]
     return sorted(kinds)
 
 
@@ -112,7 +111,7 @@ def atom_text(k: int, n: int) -> str:
         return CALLS[n][1]
     if k == 11:
         return ARROWS[n][0]
-    return [f'n{n}', f'{n}', f'$v{n}', f"'s{n}'", f'?n{n}', f'?{n}', '?*'][k]
+    return [f'n{n}', f'{n}', f'$v{n}', f"'s{n}'", f'?n{n}', f'?{n}', '*'][k]
 
 
 TREE2ATOM = {}
@@ -187,14 +186,8 @@ def dump(tok, symidx=None) -> str:
         if isinstance(v, str) and v[:1] == 's' and v[1:].isdigit():
             return f'3.{v[1:]}'
         return f'?str:{v}'
-    if s == '?' and n == 1:
-        c = tok[0]
-        if c.symbol == '(name)' and isinstance(c.value, str) and c.value[:1] == 'n' and c.value[1:].isdigit():
-            return f'4.{c.value[1:]}'
-        if c.symbol == '(integer)':
-            return f'5.{c.value}'
-        if c.symbol == '*' and len(c) == 0:
-            return '6.0'
+    if s == '*' and n == 0:
+        return '6.0'
     if s == '(':
         if n == 0:
             return '(G( _)'
@@ -369,6 +362,10 @@ def classify_nud(sym: str, cls, base_nud) -> dict:
         return {'kind': 'group', 'close': 0, 'empty_ok': a['empty_check'], 'ast': a}
     if simple and len(ex) == 1 and ex[0] is not None and not adv:
         return {'kind': 'prefix', 'rbp': ex[0], 'ast': a}
+    if set(a['calls']) <= {'expression', 'expected_next'} and len(ex) == 1 and ex[0] is not None and not adv \
+            and any('(integer)' in e for e in a['expected_next']):
+        # unary lookup: `expected_next(name, integer, '(', '*')` then `expression(rbp)`: a prefix with a next-token check
+        return {'kind': 'prefix', 'rbp': ex[0], 'check_next': True, 'ast': a}
     return {'kind': 'other', 'why': f'calls={sorted(set(a["calls"]))}', 'ast': a}
 
 
@@ -738,7 +735,8 @@ def lean_text_tables() -> list[str]:
         out.append('  sym o := ([' + ', '.join(lean_lexemes(v, TYPED_KEYWORD.get(r['sym'], r['sym'])) for r in rows) + '][o]?).getD []')
         out.append('  style o := ([' + ', '.join(str(source_style(v, r)) for r in rows) + '][o]?).getD 0')
         out.append('  close c := ([' + ', '.join(lean_lexemes(v, CLOSER_TEXT[c]) for c in (0, 1)) + '][c]?).getD []')
-        out.append('  ty n := ([' + ', '.join(lean_lexemes(v if v != '10' else '20', t) for t in TYPES) + '][n]?).getD []')
+        out.append('  ty n := ([' + ', '.join(lean_lexemes(v if v != '10' else '20', t) for t in TYPES)
+                   + f'][n % {len(TYPES)}]?).getD []')
         out.append('  syms2 := [' + ', '.join(f'({ord(s[0])}, {ord(s[1])})' for s in syms2) + ']')
         # the fragment's texts are ASCII: the lexeme model uses the ASCII part of the NCName classes
         a = alternatives()[v]
@@ -746,8 +744,40 @@ def lean_text_tables() -> list[str]:
             rngs = [(lo, min(hi, 127)) for lo, hi in class_ranges(src) if lo < 128]
             out.append(f'  {key} := [' + ', '.join(f'({lo}, {hi})' for lo, hi in rngs) + ']')
         out.append('  digit := [(48, 57)]')
+        # F: characters that may directly follow an operand (first characters of the symbols `source` glues to their left
+        # operand and of the closers); S: characters an operand may start with (names, digits, $, quote, ?, and the first
+        # characters of the prefix and opening symbols)
+        follow, start = set(), {110, 36, 39, 63, 42} | set(range(48, 58))
+        for r in rows:
+            first = ord(TYPED_KEYWORD.get(r['sym'], r['sym'])[0])
+            if r['led']['kind'] == 'bracket' or (r['led']['kind'] == 'infix' and source_style(v, r) >= 1):
+                follow.add(first)
+            if r['nud']['kind'] in ('prefix', 'group'):
+                start.add(first)
+        follow |= {ord(CLOSER_TEXT[c][0]) for c in (0, 1)}
+        out.append(f'def followCh_v{v} : List Nat := {lean_list(sorted(follow))}')
+        out.append(f'def startCh_v{v} : List Nat := {lean_list(sorted(start))}')
+        out.append(f'def ntys_v{v} : Nat := {len(TYPES)}')
         out.append('')
     return out
+
+
+def probe_prefix_checks(ver: str, rows: list[dict]) -> None:
+    """next-token check of a prefix nud (unary lookup): which first tokens of the operand are accepted"""
+    group = next((r for r in rows if r['nud']['kind'] == 'group'), None)
+    for r in rows:
+        nud = r['nud']
+        if nud['kind'] != 'prefix' or not nud.get('check_next'):
+            continue
+        firsts = {atom_code(kk): atom_text(kk, atom_ids(ver, kk)[-1]) for kk in atom_kind_list(ver)}
+        if group is not None:
+            firsts[op_code(group['idx'])] = '( n9 )'
+        for rr in rows:
+            if rr['nud']['kind'] == 'prefix':
+                firsts[op_code(rr['idx'])] = f'{rr["sym"]} n9'
+        acc = [c for c, txt in sorted(firsts.items()) if not is_err(impl_parse(ver, f'{r["sym"]} {txt}')[0])]
+        acc = [c for c in acc if c not in (atom_code(8), atom_code(9), atom_code(10), atom_code(11))]
+        nud['rhs'] = [] if len(acc) == len(firsts) else acc
 
 
 def lean_list(l) -> str:
@@ -769,7 +799,7 @@ def lean_row(r: dict) -> str:
         L = '.other'
     k = nud['kind']
     if k == 'prefix':
-        N = f'.prefix {nud["rbp"]}'
+        N = f'.prefix {nud["rbp"]} {lean_list(nud.get("rhs", []))}'
     elif k == 'group':
         N = f'.group {nud["close"]} {"true" if nud["empty_ok"] else "false"}'
     elif k == 'none':
@@ -790,6 +820,7 @@ def tables() -> dict[str, list[dict]]:
         for v in ALL_VERSIONS:
             rows = table_rows(v)
             probe_guards(v, rows)
+            probe_prefix_checks(v, rows)
             _tables_cache[v] = rows
     return _tables_cache
 
@@ -845,13 +876,11 @@ class VInfo:
 def gen_atom(rng, V=None):
     ver = V.ver if V is not None else '10'
     r = rng.random()
-    if ver.startswith('31') and r < 0.12:
-        k = rng.choice([4, 5, 5, 6])
-    elif r < 0.30:
+    if r < 0.22:
         k = rng.choice([x for x in (7, 7, 8, 8, 9, 10, 10, 11) if x in atom_kind_list(ver)])
     else:
         k = rng.choices([0, 1, 2, 3], [60, 15, 17, 8])[0]
-    return ('a', k, rng.choice(atom_ids(ver, k)))
+    return ('a', k, rng.choice(atom_ids(ver, k)))   # kind 6 (`*` key) is only placed after `?`
 
 
 def gen_tree(rng, V: VInfo, size: int):
@@ -862,9 +891,20 @@ def gen_tree(rng, V: VInfo, size: int):
     if r < 0.62 and V.infix:
         o = rng.choice(V.infix)
         ls = rng.randrange(size)
+        if V.sym[o] == '?' and rng.random() < 0.8:
+            k = rng.choice([0, 1, 1, 7, 6])
+            return ('b', o, gen_tree(rng, V, size - 1), ('a', k, rng.choice(atom_ids(V.ver, k))))
         return ('b', o, gen_tree(rng, V, ls), gen_tree(rng, V, size - 1 - ls))
     if r < 0.74 and V.prefix:
-        return ('p', rng.choice(V.prefix), gen_tree(rng, V, size - 1))
+        p = rng.choice(V.prefix)
+        if V.sym[p] == '?' and rng.random() < 0.85:
+            # unary lookup: mostly with a KeySpecifier (name, integer, keyword name, `*`, parenthesised expression)
+            if rng.random() < 0.2 and V.group:
+                g = V.group[0]
+                return ('p', p, ('g', g, V.rows[g]['nud']['close'], gen_tree(rng, V, size - 1)))
+            k = rng.choice([0, 1, 1, 7, 6])
+            return ('p', p, ('a', k, rng.choice(atom_ids(V.ver, k))))
+        return ('p', p, gen_tree(rng, V, size - 1))
     if r < 0.84 and V.typed:
         o = rng.choice(V.typed)
         n = rng.randrange(4) if V.sym[o] in ('cast', 'castable') else rng.randrange(len(TYPES))
@@ -911,6 +951,16 @@ def unparse(rng, V: VInfo, t, paren: float) -> list:
 
 def out_of_fragment(V: VInfo, toks: list) -> str | None:
     """token-level patterns that the level table does not describe (documented in docs/C04.md)"""
+    for i, t in enumerate(toks):
+        # `?` directly after `(` or `,` without a key specifier is taken as an argument placeholder by the parser
+        # (LookupOperatorToken.__init__ zeroes lbp there and nud returns the bare token): accepted although not in the
+        # EBNF outside argument lists; not modelled
+        if t[0] == 'o' and V.sym[t[1]] == '?' and i > 0 and toks[i - 1][0] == 'o' and V.sym[toks[i - 1][1]] in ('(', ','):
+            rhs = V.rows[t[1]]['nud'].get('rhs') or []
+            nxt = toks[i + 1] if i + 1 < len(toks) else None
+            code = -1 if nxt is None else (atom_code(nxt[1]) if nxt[0] == 'a' else (op_code(nxt[1]) if nxt[0] == 'o' else -1))
+            if code not in rhs:
+                return 'placeholder-position'
     for a, b in zip(toks, toks[1:]):
         if a[0] == 't' and b[0] == 'o' and V.sym[b[1]] in ('+', '*', '?'):
             return 'occurrence-indicator'            # xgc:occurrence-indicators
@@ -922,8 +972,6 @@ def out_of_fragment(V: VInfo, toks: list) -> str | None:
             return 'lookup-key-not-ncname'           # 3.1 [54] KeySpecifier is an NCName / integer / parenthesised expr
         if V.ver == '10' and a[0] == 'o' and V.sym[a[1]] in ('/', '//') and b[0] == 'a' and b[1] >= 10:
             return 'xpath1-function-call-step'       # 1.0 [4]: a Step is not a function call
-        if a[0] == 'a' and a[1] == 6 and b[0] == 'a' and b[1] in (0, 1):
-            return 'wildcard-lookup-followed-by-name'   # `?* n1`: lexically `?*` then a name test, no operator between
         if V.ver == '10' and a[0] == 'o' and V.sym[a[1]] in ('/', '//') and b[0] == 'a' and b[1] == 2:
             return 'xpath1-variable-step'            # 1.0 [4] Step needs a NodeTest; level table says "operand"
         if V.ver == '10' and a[0] == 'o' and V.sym[a[1]] in ('/', '//') and b[0] == 'o' and V.sym[b[1]] == '(':
@@ -1064,14 +1112,8 @@ def trig_f04g(src: str) -> bool:
     return False
 
 
-def trig_f04h(src: str) -> bool:
-    """trigger of finding F04h: an arrow whose function specifier is a prefixed or braced name"""
-    import re
-    return re.search(r'=>\s*(?:[^\d\W][\w.\-]*:[^\d\W][\w.\-]*|Q\{[^}]*\}[^\d\W][\w.\-]*)\s*\(', src) is not None
-
-
 def roundtrip_tags(src: str) -> list:
-    return (['F04g'] if trig_f04g(src) else []) + (['F04h'] if trig_f04h(src) else [])
+    return ['F04g'] if trig_f04g(src) else []
 
 
 def roundtrip(run: Run, ver: str, src: str, tok, dumped: str) -> None:
@@ -1167,10 +1209,6 @@ def trig_f04e(src: str) -> bool:
     line holds another ':)' directly followed by '(' or '::' — the greedy `\\(\\:.*\\:\\)` look-ahead of the
     function / axis token patterns then spans both comments and the code between them"""
     import re
-    if re.search(r'(?<!\$)\b(?:map|array)\s*\(:', src):
-        # second clause (3.1, repaired on branch fix-c04-2): the look-ahead of the `map` / `array` token patterns
-        # accepts the '(' of a comment, so a name `map` / `array` followed by a comment becomes a constructor token
-        return True
     for m in re.finditer(r'[^\d\W][\w.\-]*\s*(?=\(:)', src):
         e = comment_end(src, m.end())
         rest = src[e:]
@@ -1411,11 +1449,11 @@ def sym_toks(V: VInfo, spec: list) -> list:
         elif s in V.idx:
             out.append(('o', V.idx[s]))
         elif s == '?*':
-            out.append(('a', 6, 0))
+            out += [('o', V.idx['?']), ('a', 6, 0)]
         elif s[0] == '?' and len(s) > 1 and s[1] == 'n':
-            out.append(('a', 4, int(s[2:])))
+            out += [('o', V.idx['?']), ('a', 0, int(s[2:]))]
         elif s[0] == '?' and len(s) > 1:
-            out.append(('a', 5, int(s[1:])))
+            out += [('o', V.idx['?']), ('a', 1, int(s[1:]))]
         elif s[0] == 'n':
             out.append(('a', 0, int(s[1:])))
         elif s[0] == '$':
@@ -1497,22 +1535,25 @@ def search(run: Run):
             comma = V.idx.get(',')
             pred = V.idx.get('[')
             look = V.idx.get('?')
-            U = [('a', 5, 1), ('a', 4, 2), ('a', 6, 0), ('a', 5, 3)]
+            q = ('o', look)
+            U = [[q, ('a', 1, 1)], [q, ('a', 0, 2)], [q, ('a', 6, 0)], [q, ('a', 1, 3)]]
             for o in V.infix:
                 for u1 in U[:3]:
-                    cases.append((v, [('o', g), u1, ('o', o), U[3], ('c', gc)]))
-                    cases.append((v, [u1, ('o', o), U[3]]))
+                    cases.append((v, [('o', g)] + u1 + [('o', o)] + U[3] + [('c', gc)]))
+                    cases.append((v, u1 + [('o', o)] + U[3]))
                     if comma is not None:
-                        cases.append((v, [('o', g), ('a', 1, 1), ('o', comma), u1, ('o', o), U[3], ('c', gc)]))
-                        cases.append((v, [('a', 2, 1), ('o', g), u1, ('o', o), U[3], ('o', comma), U[1], ('o', o), ('a', 1, 2), ('c', gc)]))
+                        cases.append((v, [('o', g), ('a', 1, 1), ('o', comma)] + u1 + [('o', o)] + U[3] + [('c', gc)]))
+                        cases.append((v, [('a', 2, 1), ('o', g)] + u1 + [('o', o)] + U[3] + [('o', comma)] + U[1]
+                                      + [('o', o), ('a', 1, 2), ('c', gc)]))
                     if pred is not None:
-                        cases.append((v, [('a', 0, 1), ('o', pred), u1, ('o', o), ('a', 1, 2), ('c', 1)]))
-                        cases.append((v, [('a', 0, 1), ('o', pred), ('o', g), u1, ('o', o), ('a', 1, 1), ('c', gc), ('o', o), ('a', 1, 2), ('c', 1)]))
-                if look is not None:
-                    cases.append((v, [('a', 0, 1), ('o', look), ('a', 1, 1), ('o', o), ('a', 0, 2), ('o', look), ('a', 0, 3)]))
-                    cases.append((v, [('o', g), ('a', 0, 1), ('o', look), ('a', 1, 1), ('o', o), U[0], ('c', gc)]))
+                        cases.append((v, [('a', 0, 1), ('o', pred)] + u1 + [('o', o), ('a', 1, 2), ('c', 1)]))
+                        cases.append((v, [('a', 0, 1), ('o', pred), ('o', g)] + u1 + [('o', o), ('a', 1, 1), ('c', gc),
+                                          ('o', o), ('a', 1, 2), ('c', 1)]))
+                cases.append((v, [('a', 0, 1), q, ('a', 1, 1), ('o', o), ('a', 0, 2), q, ('a', 0, 3)]))
+                cases.append((v, [('o', g), ('a', 0, 1), q, ('a', 1, 1), ('o', o)] + U[0] + [('c', gc)]))
             for p in V.prefix:
-                cases.append((v, [('o', g), ('o', p), U[0], ('o', comma), ('o', p), U[1], ('c', gc)]) if comma is not None else (v, [('o', p), U[0]]))
+                if comma is not None:
+                    cases.append((v, [('o', g), ('o', p)] + U[0] + [('o', comma), ('o', p)] + U[1] + [('c', gc)]))
 
         def led_tail(o, operand):
             k = V.rows[o]['led']['kind']
@@ -1605,6 +1646,15 @@ def shrink(d: Disagreement) -> Disagreement:
                     return False
                 if t[0] == 'a' and i > 0 and c[i - 1][0] in ('a', 't', 'c'):
                     return False
+                if t[0] == 'o' and t[1] in V.prefix and V.rows[t[1]]['led']['kind'] in ('none', 'other', 'infix') \
+                        and (i + 1 == len(c) or c[i + 1][0] == 'c') and (i == 0 or c[i - 1][0] == 'o'):
+                    return False        # a prefix symbol without operand (`( ? )`: the placeholder form, outside the fragment)
+                rhs = V.rows[t[1]]['nud'].get('rhs') if t[0] == 'o' else None
+                if rhs and (i == 0 or c[i - 1][0] == 'o') and i + 1 < len(c):
+                    nxt = c[i + 1]
+                    code = atom_code(nxt[1]) if nxt[0] == 'a' else (op_code(nxt[1]) if nxt[0] == 'o' else -1)
+                    if code not in rhs:
+                        return False    # unary lookup without a key specifier (placeholder laxity, outside the fragment)
             return out_of_fragment(V, c) is None
         cands = [(ver, c) for c in reductions(toks) if plausible(c)]
         if not cands:
@@ -1812,7 +1862,7 @@ def body(run: Run) -> int:
     run.assumptions += ['operands are abstract: which primary expressions may occur as path steps or call targets is outside the level table',
                         'lexical constraint xgc:occurrence-indicators (type followed by + * ?) is outside the level table',
                         'observation is the syntactic phase tdop.Parser.parse; static evaluation in XPath1Parser.parse is not part of C04']
-    run.prove(['EPV.Props.C04', 'EPV.Props.C04Tables'], ['EPV.Lemmas.PrattTables', 'EPV.Lemmas.PrattComplete', 'EPV.Model.PrattLexer', 'EPV.Lemmas.PrattSource'])
+    run.prove(['EPV.Props.C04', 'EPV.Props.C04Tables'], ['EPV.Lemmas.PrattTables', 'EPV.Lemmas.PrattComplete', 'EPV.Model.PrattLexer', 'EPV.Lemmas.PrattSource', 'EPV.Lemmas.PrattSourceAll'])
     try:
         correspond(run)
     except DriverError as e:
